@@ -163,9 +163,21 @@ def check(assertions, timeout_ms=10000, seed=None):
     if r == z3.unsat:
         return "unsat", None
     try:
-        return "unknown", s.reason_unknown()
+        reason = s.reason_unknown()
     except z3.Z3Exception:
         return "unknown", "interrupted"
+    global LAST_CANDIDATE
+    LAST_CANDIDATE = None
+    if "incomplete" in str(reason) or "quantifier" in str(reason):
+        # z3 gave up on the quantifiers but has a model of the ground part: a CANDIDATE counter-model, worth a native replay
+        try:
+            LAST_CANDIDATE = s.model()
+        except z3.Z3Exception:
+            LAST_CANDIDATE = None
+    return "unknown", reason
+
+
+LAST_CANDIDATE = None
 
 
 def to_smt2(assertions) -> str:
